@@ -149,6 +149,12 @@ pub fn family_from(v: &Value) -> MetricFamily {
     if let Some(t) = v.get("type").and_then(|x| x.as_str()) {
         mf.set_field_type(type_from(t));
     }
+    // "type_number": a type value outside the known enum — what a family decoded from a newer producer's bytes carries
+    // (only the protobuf-backed model can hold one; the plain model keeps the declared "type")
+    #[cfg(feature = "protobuf")]
+    if let Some(n) = v.get("type_number").and_then(|x| x.as_i64()) {
+        mf.type_ = Some(protobuf::EnumOrUnknown::from_i32(n as i32));
+    }
     let mut ms = vec![];
     for m in v.get("metrics").and_then(|x| x.as_array()).cloned().unwrap_or_default() {
         let mut lps = vec![];
@@ -164,46 +170,49 @@ pub fn family_from(v: &Value) -> MetricFamily {
                 pm.set_timestamp_ms(ts);
             }
         }
-        if let Some(c) = m.get("counter") {
-            let mut x = proto::Counter::default();
-            x.set_value(fparse(c));
-            pm.set_counter(x);
-        }
-        if let Some(c) = m.get("gauge") {
-            let mut x = proto::Gauge::default();
-            x.set_value(fparse(c));
-            pm.set_gauge(x);
-        }
-        if let Some(c) = m.get("untyped") {
-            crate::pm::set_untyped(&mut pm, fparse(c));
-        }
-        if let Some(h) = m.get("hist") {
-            let mut x = proto::Histogram::default();
-            x.set_sample_count(h["count"].as_u64().unwrap());
-            x.set_sample_sum(fparse(&h["sum"]));
-            let mut bs = vec![];
-            for b in h["b"].as_array().unwrap() {
-                let mut bb = proto::Bucket::default();
-                bb.set_upper_bound(fparse(&b[0]));
-                bb.set_cumulative_count(b[1].as_u64().unwrap());
-                bs.push(bb);
+        // the value setters are applied in the order given by "order" (default: counter, gauge, untyped, hist, summary); a hand-written
+        // collector may call several of them on one Metric
+        let default_order = ["counter", "gauge", "untyped", "hist", "summary"];
+        let order: Vec<String> = m.get("order").and_then(|x| x.as_array()).map(|a| a.iter().map(|x| x.as_str().unwrap().to_owned()).collect())
+            .unwrap_or_else(|| default_order.iter().map(|x| x.to_string()).collect());
+        for which in &order {
+            let m = match m.get(which.as_str()) { Some(_) => &m, None => continue };
+            match which.as_str() {
+                "counter" => { let c = &m["counter"]; let mut x = proto::Counter::default(); x.set_value(fparse(c)); pm.set_counter(x); }
+                "gauge" => { let c = &m["gauge"]; let mut x = proto::Gauge::default(); x.set_value(fparse(c)); pm.set_gauge(x); }
+                "untyped" => { crate::pm::set_untyped(&mut pm, fparse(&m["untyped"])); }
+                "hist" => {
+                    let h = &m["hist"];
+                    let mut x = proto::Histogram::default();
+                    x.set_sample_count(h["count"].as_u64().unwrap());
+                    x.set_sample_sum(fparse(&h["sum"]));
+                    let mut bs = vec![];
+                    for b in h["b"].as_array().unwrap() {
+                        let mut bb = proto::Bucket::default();
+                        bb.set_upper_bound(fparse(&b[0]));
+                        bb.set_cumulative_count(b[1].as_u64().unwrap());
+                        bs.push(bb);
+                    }
+                    x.set_bucket(bs);
+                    pm.set_histogram(x);
+                }
+                "summary" => {
+                    let su = &m["summary"];
+                    let mut x = proto::Summary::default();
+                    x.set_sample_count(su["count"].as_u64().unwrap());
+                    x.set_sample_sum(fparse(&su["sum"]));
+                    let mut qs = vec![];
+                    for q in su["q"].as_array().unwrap() {
+                        let mut qq = proto::Quantile::default();
+                        qq.set_quantile(fparse(&q[0]));
+                        qq.set_value(fparse(&q[1]));
+                        qs.push(qq);
+                    }
+                    x.set_quantile(qs);
+                    pm.set_summary(x);
+                }
+                _ => panic!("harness: setter {}", which),
             }
-            x.set_bucket(bs);
-            pm.set_histogram(x);
-        }
-        if let Some(su) = m.get("summary") {
-            let mut x = proto::Summary::default();
-            x.set_sample_count(su["count"].as_u64().unwrap());
-            x.set_sample_sum(fparse(&su["sum"]));
-            let mut qs = vec![];
-            for q in su["q"].as_array().unwrap() {
-                let mut qq = proto::Quantile::default();
-                qq.set_quantile(fparse(&q[0]));
-                qq.set_value(fparse(&q[1]));
-                qs.push(qq);
-            }
-            x.set_quantile(qs);
-            pm.set_summary(x);
         }
         ms.push(pm);
     }
@@ -1008,7 +1017,12 @@ pub fn run_file(input: &str, output: &str) {
         let job: Value = serde_json::from_str(&line).unwrap();
         let r = run_job(&job, &prog);
         prog.lock().unwrap().ncalls = 0;
-        writeln!(w.lock().unwrap(), "{}", r).unwrap();
+        {
+            // flushed per job: if the library aborts the process (a panic while panicking), everything before that job is on disk
+            let mut w = w.lock().unwrap();
+            writeln!(w, "{}", r).unwrap();
+            w.flush().unwrap();
+        }
     }
     w.lock().unwrap().flush().unwrap();
 }
